@@ -845,6 +845,11 @@ func generate(repo, out string) error {
 		return err
 	}
 
+	// 4ah. the glue of Sort, comparables / orders, apply1 / apply2, the error returns of createColumn, ReadSQLWithArgs as terms of QF.SG (sortgast.go)
+	if err := writeIfChanged(filepath.Join(out, "SortGlue.lean"), []byte(sortGlueLean(repo, root))); err != nil {
+		return err
+	}
+
 	// 4m. the three writers of qframe.go (ToJSON, ToCSV, String) as terms of QF.JS / QF.CS / QF.PS (wast.go)
 	if err := writeIfChanged(filepath.Join(out, "Writers.lean"), []byte(writersLean(repo, root, strs))); err != nil {
 		return err
